@@ -63,5 +63,5 @@ Theorem C03_out_and_in_lap_dropped :
     convert o v laps geod =
     (if Nat.ltb (length laps) 3 then Ok []
      else laps_of o (if String.eqb (o_vehicle o) "" then v else o_vehicle o) None 1 (middle laps) geod).
-Proof. intros o v laps geod H. unfold convert. rewrite H. reflexivity. Qed.
+Proof. intros o v laps geod H. unfold convert, convert_with. rewrite H. reflexivity. Qed.
 Print Assumptions C03_out_and_in_lap_dropped.
